@@ -267,6 +267,14 @@ def generate(ctx):
         chans = rng.choice([(0,), (0,), (1,), (0, 1, 2)])
         rel, notes = G.gen_wf_rel(rng, max_tick=max(1, target), max_dur=max(1, target // 2), channels=chans)
         rel = [m for m in rel if m[TY] != TIMESIG]
+        if rng.random() < 0.2:
+            # "any sequence": ill-formed material too — unclosed note-ons (after a rest, at the start, stacked), orphan note-offs — the constructor's
+            # normalise() has to clean it up WITHOUT changing the duration the capacity check sees (seeded change C10_agent8)
+            rel = [m for m in G.gen_ill_rel(rng, n=rng.randint(2, 9), channels=chans, pitches=(60, 62, 64)) if m[TY] != TIMESIG]
+            if rng.random() < 0.6:
+                rel = rel + [G.pm(WAIT, chans[0], rng.choice([1, 6, 24])), G.pm(ON, chans[0], None, note=rng.choice([60, 65]), vel=64)]   # a rest, then a note that is never closed
+            notes = []
+            ctx.count("ill-formed-input")
         d0 = rel_timed(rel)[1]
         if target in (cap, cap + 1) and d0 < target and rng.random() < 0.7:
             rel = rel + [G.pm(WAIT, chans[0], target - d0)]          # exactly full / one tick too long (the boundary of the capacity check)
